@@ -559,3 +559,56 @@ Lemma capture_tail H ct re_match node_repr t v ctx :
   pm_fspec H ct re_match node_repr (FSeq [] (Some (Some t)) None) v ctx =
   match seq_items v with Some _ => ROk [(t, seq_drop 0 v)] | None => RFail end.
 Proof. unfold pm_fspec. simpl. destruct (seq_items v); reflexivity. Qed.
+
+(* ------------------------------------------------------------------ witnesses *)
+Definition fd (n : String.string) (r : frole) : fdecl :=
+  {| fd_name := lit n; fd_role := r; fd_compare := true; fd_init := true; fd_kwonly := false |}.
+Definition wit_ct : ctable :=
+  [ {| cd_name := lit "A"; cd_bases := []; cd_own := [fd "x" RProp] |};
+    {| cd_name := lit "B"; cd_bases := [lit "A"]; cd_own := [] |};
+    {| cd_name := lit "L"; cd_bases := []; cd_own := [fd "items" (RChild KTup)] |} ].
+Definition nA (a : nat) (x : String.string) : node := Node a (lit "A") ONo [(lit "x", VStr (lit x))] [].
+Definition nB (a : nat) (x : String.string) : node := Node a (lit "B") ONo [(lit "x", VStr (lit x))] [].
+Definition nL (a : nat) (l : list node) : node := Node a (lit "L") ONo [] [(lit "items", (ShMany, l))].
+Definition pcls (c : String.string) : vpat := VTree (PTree (Some [lit c]) []).
+Definition idH (s : pystr) : pystr := s.
+Definition any_re (r t : pystr) : bool := true.
+Definition no_repr (n : node) : pystr := [].
+
+(* (L @items=[(A) (B) *]) against L(items=(a,)) : D7 *)
+Definition pat_D7 : pat := PTree (Some [lit "L"]) [(lit "items", FSeq [(pcls "A", None); (pcls "B", None)] (Some None) None)].
+Lemma refuted_D7 :
+  exists m, compile wit_ct (fun _ => true) true pat_D7 = inl m
+    /\ run idH wit_ct any_re no_repr false m (XN (nL 0 [nA 1 "a"])) [] = ROk []
+    /\ pm_pat idH wit_ct any_re no_repr pat_D7 (XN (nL 0 [nA 1 "a"])) [] = RFail
+    /\ run idH wit_ct any_re no_repr true m (XN (nL 0 [nA 1 "a"])) [] = RFail.
+Proof. eexists. split; [vm_compute; reflexivity|]. vm_compute. auto. Qed.
+
+(* (L @items=[(A) *] -> c) : before the D8 repair the captured sequence lost its tail *)
+Definition pat_D8 : pat := PTree (Some [lit "L"]) [(lit "items", FSeq [(pcls "A", None)] (Some None) (Some (lit "c")))].
+Lemma refuted_D8_tail_lost :
+  exists m, compile wit_ct (fun _ => true) false pat_D8 = inl m
+    /\ run idH wit_ct any_re no_repr true m (XN (nL 0 [nA 1 "a"; nB 2 "b"])) [] = RFail
+    /\ pm_pat idH wit_ct any_re no_repr pat_D8 (XN (nL 0 [nA 1 "a"; nB 2 "b"])) []
+       = ROk [(lit "c", XNs [nA 1 "a"; nB 2 "b"])].
+Proof. eexists. split; [vm_compute; reflexivity|]. vm_compute. auto. Qed.
+
+(* (L @items=[*] -> c) : rejected as "Unexpected error" before the repair, accepted now *)
+Definition pat_D8b : pat := PTree (Some [lit "L"]) [(lit "items", FSeq [] (Some None) (Some (lit "c")))].
+Lemma refuted_D8_star_capture :
+  compile wit_ct (fun _ => true) false pat_D8b = inr EUnexpected /\
+  exists m, compile wit_ct (fun _ => true) true pat_D8b = inl m.
+Proof. split; [vm_compute; reflexivity|]. eexists. vm_compute. reflexivity. Qed.
+
+(* a pattern using every construct; it compiles and matches with the captures one expects *)
+Definition pat_demo : pat :=
+  PTree None [(lit "items", FSeq [(VTree (PTree (Some [lit "A"; lit "L"]) [(lit "x", FVal (VRegex (lit "a")) (Some (lit "s")))]), Some (lit "a"));
+                                  (VVar (lit "a"), None)] (Some (Some (lit "rest"))) (Some (lit "all")))].
+Example demo_compiles : exists m, compile wit_ct (fun _ => true) true pat_demo = inl m.
+Proof. eexists. vm_compute. reflexivity. Qed.
+Example demo_matches :
+  pm_pat idH wit_ct (fun r t => match r, t with c :: _, d :: _ => Ascii.eqb c d | [], _ => true | _, _ => false end) no_repr
+         pat_demo (XN (nL 0 [nB 1 "a"; nB 2 "a"; nA 3 "z"])) []
+  = ROk [(lit "all", XNs [nB 1 "a"; nB 2 "a"; nA 3 "z"]); (lit "a", XN (nB 1 "a")); (lit "s", XP (VStr (lit "a")));
+         (lit "rest", XNs [nA 3 "z"])].
+Proof. vm_compute. reflexivity. Qed.
